@@ -681,6 +681,35 @@ def _lock_states(obj):
     return out
 
 
+def _close_loop(loop):
+    """Tear the loop down without leaking pending tasks / async generators into later runs."""
+    import gc
+    try:
+        pending = [t for t in asyncio.all_tasks(loop) if not t.done()]
+        for t in pending:
+            t.cancel()
+        loop._scheduled.clear()
+        if pending:
+            async def _drain():
+                await asyncio.gather(*pending, return_exceptions=True)
+            try:
+                loop.run_until_complete(loop.create_task(_drain(), name='drain'))
+            except BaseException:    # noqa
+                pass
+        gc.collect()
+        try:
+            loop.run_until_complete(loop.create_task(loop.shutdown_asyncgens(), name='shutdown-asyncgens'))
+        except BaseException:    # noqa
+            pass
+        loop._ready.clear()
+        loop._scheduled.clear()
+    finally:
+        try:
+            loop.close()
+        except BaseException:    # noqa
+            pass
+
+
 def _execute_async(scn, tape, L):
     run = build(scn, tape)
     cfg = scn.get('config', {})
@@ -756,13 +785,5 @@ def _execute_async(scn, tape, L):
     finally:
         _unpatch(saved)
         L['hidden_helpers'].os = os
-        try:
-            for t in asyncio.all_tasks(loop):
-                t.cancel()
-            # drop pending tasks without running them (their coroutines are closed by GC)
-            loop._ready.clear()
-            loop._scheduled.clear()
-            loop.close()
-        except Exception:    # noqa
-            pass
+        _close_loop(loop)
     return _finish(run)
